@@ -60,7 +60,6 @@ RealParts(d) ==
       mant |-> StripLeadingZeroBits(mant1), exp |-> exp0 + (Len(mant0) - Len(mant1))]
 RealBin(sign, base, F, e, mbits) ==
   LET eo == TwosC(IOfInt(e)) IN <<128 + 64 * sign + 16 * base + 4 * F + (Len(eo) - 1)>> \o eo \o PackLeft(mbits)
-Zeros30 == [i \in 1..30 |-> 48]
 RealVarContents(d, form) ==
   LET p == RealParts(d) IN
   IF p.special THEN RealContents(d)
@@ -72,10 +71,6 @@ RealVarContents(d, form) ==
                                IN IF Len(eo) < 2 THEN RealContents(d)
                                   ELSE <<128 + 64 * p.sign + 3, Len(eo)>> \o eo \o PackLeft(p.mant)
          [] form = "decimal" -> IF d \in DOMAIN RealTexts THEN <<3>> \o RealTexts[d] ELSE RealContents(d)
-         \* more than 23 content octets (the text is copied to the heap before it is converted); only used as an
-         \* input for the robustness checks
-         [] form = "long-mantissa" -> RealBin(p.sign, 0, 0, p.exp, Zeros(200) \o p.mant)      \* 25 leading zero octets
-         [] form = "decimal-long" -> IF d \in DOMAIN RealTexts /\ d # <<0,0,0,0,0,0,0,0>> THEN <<3>> \o Zeros30 \o RealTexts[d] ELSE RealContents(d)
          [] OTHER -> RealContents(d)
 
 IsStringKind(T) == T.k \in {"OCTETS", "BITS", "STRING"}
